@@ -44,7 +44,8 @@ ASSUMPTIONS = [
 REQUIRED = ['plot:pd_ts', 'plot:pk_ts', 'plot:pd_pred', 'plot:pk_pred', 'plot:resid', 'ids:str', 'nan:value',
             'nan:time', 'nanobs', 'idx:perm', 'idx:dup', 'keys:custom', 'obs:explicit', 'ties', 'n>=50',
             'probs>=2', 'probs=7', 'intvalues', 'scatter', 'resid:indiv', 'resid:rel', 'resid:nores',
-            'band:both', 'obsdtype:object']
+            'band:both', 'obsdtype:object', 'resid:intvalues', 'nanobs:first-default:pd_pred',
+            'nanobs:first-default:pd_ts', 'dose:unshown-individual', 'times:unsorted']
 
 PLOTS = ['pd_ts', 'pk_ts', 'pd_pred', 'pk_pred', 'resid']
 KEYPOOL = {
@@ -145,7 +146,7 @@ def _meas_frame(draw, kind, int_ids_only):
             for _ in range(draw(st.integers(0, 3))):
                 dur = None if gen.chance(draw, 0.15) else draw(gen.logu(0.01, 1))
                 rows.append([i, _time(draw, int_times), None, None, draw(gen.logu(0.1, 100)), dur])
-    elif gen.chance(draw, 0.4) and not int_values:
+    elif gen.chance(draw, 0.5) and not int_values:
         for _ in range(draw(st.integers(1, 3))):
             rows.append([draw(st.sampled_from(ids)), _time(draw, int_times), None, None])
     mode = draw(st.sampled_from(['asis', 'shuffle', 'shuffle', 'nanfirst', 'nanfirst']))
@@ -359,6 +360,9 @@ def classify(spec):
         labs.append('nanobs')
         if data['rows'] and _dicts(data)[0]['obs'] is None:
             labs.append('nanobs:first')
+            if spec.get('observable') is None and spec['plot'] != 'resid' and spec.get('with_data', True):
+                # the default observable must skip the leading rows without observable
+                labs.append('nanobs:first-default:' + spec['plot'])
     for fr in _frames(spec):
         if fr['index'] is not None:
             labs.append('idx:dup' if len(set(fr['index'])) < len(fr['index']) else 'idx:perm')
@@ -373,6 +377,8 @@ def classify(spec):
     vals = [v for v in _col(data, 'value') if v is not None]
     if vals and all(isinstance(v, int) for v in vals):
         labs.append('intvalues')
+        if spec['plot'] == 'resid':
+            labs.append('resid:intvalues')
     if 'dose' in data['fields']:
         if any(r['dose'] is not None and r['obs'] is not None for r in _dicts(data)):
             labs.append('dose:both')
